@@ -237,3 +237,98 @@ def weighted_sum_dtype(ctx, rule, f):
                                    node=x, key="weights:%s" % ast.unparse(wast), engine="KB")
     if not found:
         ctx.unknown(rule, f, what, "no length-weighted product recognised", engine="KB")
+
+
+def slice_range_model(ctx, rule, Ns=(0, 1, 2, 3)):
+    """E9 on RunLengthArray._get_slice: for arrays of 0-3 elements the slice space (start, stop, step) is cut at every
+    landmark of Python's slice arithmetic; on each cell the method is interpreted abstractly up to the point where it
+    either returns the empty array or asks `_start_to_end(lo, hi)` for the covered range.  Required: empty exactly when
+    Python selects nothing; otherwise for a forward slice lo is the first selected position and hi lies in
+    (last selected, N]; for a backward slice hi - 1 is the first selected position and lo lies in [0, last selected]
+    (the stride is then applied inside that range, from its low end for forward and from its high end for backward slices)."""
+    from .absint import Interp, Iv, NONE, SliceV, Obj, INF, REFUSED
+    f = ctx.func("runlengtharray.RunLengthArray._get_slice")
+    cls = f.cls
+    what = "for arrays of %d element(s) a slice covers the range Python's slice arithmetic selects from (and is empty exactly when Python selects nothing)"
+    for N in Ns:
+        bc = [("None", NONE, [None])] + [(str(v), Iv(v, v), [v]) for v in range(-N - 1, N + 2)] + \
+            [("<=%d" % (-N - 2), Iv(-INF, -N - 2), [-N - 2, -N - 9, -10 ** 9]), (">=%d" % (N + 2), Iv(N + 2, INF), [N + 2, N + 9, 10 ** 9])]
+        top = max(N, 1)
+        sc = [("None", NONE, [None])] + [(str(v), Iv(v, v), [v]) for v in list(range(-top, 0)) + list(range(1, top + 1))] + \
+            [("<=%d" % (-top - 1), Iv(-INF, -top - 1), [-top - 1, -top - 5, -10 ** 9]), (">=%d" % (top + 1), Iv(top + 1, INF), [top + 1, top + 5, 10 ** 9])]
+        bad, ok, unk = [], 0, 0
+        for sn, sv, sreps in sc:
+            for an, av, areps in bc:
+                for bn, bv, breps in bc:
+                    outs = set()
+                    for a in areps:
+                        for b in breps:
+                            for st in sreps:
+                                sl = slice(a, b, st)
+                                r = range(*sl.indices(N))
+                                outs.add((sl.indices(N)[:2], len(r), (r[0], r[-1]) if len(r) else None, (st or 1) < 0))
+                    if len(outs) != 1:
+                        unk += 1
+                        continue
+                    (ind2, nsel, ends, rev) = next(iter(outs))
+                    step_sign = -1 if rev else 1
+                    # slice.indices()[2] is the step itself: any representative will do for the sign tests in the code
+                    rep_step = [st for st in sreps][0]
+                    I = Interp(ctx, cls, {"len:self": Iv(N, N)})
+                    I.opaque_methods = {"_start_to_end", "_step_subset", "_get_position"}
+                    stepv = sv
+                    res = I.run(f, [SliceV(av, bv, stepv, indices_result=(ind2[0], ind2[1], rep_step if rep_step is not None else 1))], {})
+                    key = "start=%s,stop=%s,step=%s" % (an, bn, sn)
+                    if I.unknown_reasons:
+                        unk += 1
+                        continue
+                    asked = [c for c in I.calls if c[0] == "_start_to_end"]
+                    if nsel == 0:
+                        if asked:
+                            bad.append((key, "asks for the range %s although Python selects nothing" % (asked[0][1],)))
+                        elif isinstance(res, Obj):
+                            ok += 1
+                        else:
+                            unk += 1
+                        continue
+                    picked = [c for c in I.calls if c[0] == "_get_position"]
+                    if not asked and picked and len(I.returned) == 1:
+                        # a single-element shortcut: it must be taken only when Python selects one element, and pick that element
+                        pv = picked[0][1][0] if picked[0][1] else None
+                        pn = I.num(pv) if isinstance(pv, Iv) else None
+                        if pn is not None and pn[0] == pn[1]:
+                            if nsel != 1 or pn[0] != ends[0]:
+                                bad.append((key, "returns the single element at position %d where Python selects %d element(s) starting at position %d" % (pn[0], nsel, ends[0])))
+                            else:
+                                ok += 1
+                            continue
+                    if not asked:
+                        # definitely the empty result only if every reached return builds an empty array literally
+                        lit_empty = I.returned and all(any(isinstance(x, ast.Call) and isinstance(x.func, ast.Attribute) and x.func.attr in ("empty", "empty_like", "zeros")
+                                                           for x in ast.walk(r_)) for r_ in I.returned)
+                        if lit_empty:
+                            bad.append((key, "returns the empty array although Python selects %d element(s)" % nsel))
+                        else:
+                            unk += 1
+                        continue
+                    lo, hi = asked[0][1][0], asked[0][1][1]
+                    nlo, nhi = I.num(lo) if isinstance(lo, Iv) else None, I.num(hi) if isinstance(hi, Iv) else None
+                    if nlo is None or nhi is None or nlo[0] != nlo[1] or nhi[0] != nhi[1]:
+                        unk += 1
+                        continue
+                    lo, hi = nlo[0], nhi[0]
+                    first, last = ends
+                    if step_sign > 0:
+                        good = lo == first and last < hi <= N
+                    else:
+                        good = hi - 1 == first and 0 <= lo <= last
+                    if good:
+                        ok += 1
+                    else:
+                        bad.append((key, "covers [%d, %d) where Python selects positions %d..%d (%s)" % (lo, hi, first, last, "backward" if rev else "forward")))
+        if bad:
+            for key, detail in bad[:4]:
+                ctx.violated(rule, f, what % N, "slice %s on %d element(s): %s (%d cells of the slice partition disagree, %d agree)" % (key, N, detail, len(bad), ok),
+                             key="slice-model:N=%d:%s" % (N, key), engine="E9")
+        else:
+            ctx.decide(rule, f, what % N, True if ok else None, key="slice-model:N=%d" % N, engine="E9", detail_ok="%d cells agree, %d undecided" % (ok, unk))
